@@ -48,6 +48,12 @@ CLAIMED.update({
    text='Every heap store of insert_quant/insert_dequant/add_op_code/add_new_activation_tensor is checked against a frame that admits only objects of the instruction\'s own subgraph, the shared op-code table (extended, existing entries fixed) and fresh objects; _update_op_id_map/_apply_single_transformation leave the op-id maps of every other subgraph untouched. Hence the final state of subgraph i is a function of its own instructions.',
    note='Assumes object graphs of different subgraphs are disjoint. Name-keyed plan generation and shared constants (C15) are not re-proved here; no end-to-end multi-signature comparison yet.',
    design='§4 C19'),
+ 'C10': dict(
+   technique='contract-based deductive verification: both _get_op_scope copies verified against one spec function (AST symbolic executor, loop invariant, string theory as uninterpreted concat+length, z3); call-site/dataflow obligations on the real ASTs of the three selection loops',
+   level='proof',
+   text='Calibrator._get_op_scope and ParamsGenerator._get_op_scope are each proved equal to join(output names != -1, each followed by ";") for every operator and output count, so the two phases interpret a regex against the same string; the three loops that resolve a rule (calibrate, _initialize_model_qsvs, generate_quantization_parameters) are checked to pass (op key, scope) of the same operator with the same skip conditions, and calibrate to read the tensor contents of the subgraph it walks.',
+   note='Assumes the interpreter wrapper returns the tensor names of the requested subgraph; regex search and rule resolution are pure (C11). The call-site obligations are syntactic patterns on the real AST (a refactoring that keeps the semantics may need the contract updated: reported as a failed obligation with no-failing-input-found). "never fails for missing statistics" end to end: bounded stand-in only.',
+   design='§4 C10'),
  'C14': dict(
    technique='contract-based verification of frame (modifies) / reads clauses by a conservative interprocedural may-mutate-a-parameter analysis over the real ASTs (callee summaries to a fixpoint, registry dispatch resolved from source), with native before/after replay',
    level='proof',
